@@ -204,6 +204,9 @@ func (eng *Engine) scanBlock(fn *ssa.Function, b *ssa.BasicBlock, e *Effects) {
 func (eng *Engine) scanCall(fn *ssa.Function, ci ssa.CallInstruction, e *Effects) {
 	c := ci.Common()
 	if c.IsInvoke() {
+		if ic := eng.ifaceContract(c.Value.Type(), c.Method.Name(), Bits); ic != nil && ic.Pure {
+			return // observers deliver no event
+		}
 		if n, ok := c.Value.Type().(*types.Named); ok {
 			e.Ifaces[shortTypeName(n)] = true
 		} else {
